@@ -86,11 +86,13 @@ func (cl *ConnLimiter) acquire(token string, amount int64) error {
 
 	connections := cl.connections[token]
 	if connections >= cl.maxConnections {
+		verifEmit("cl.reject", cl, token, amount, connections)
 		return &MaxConnError{max: cl.maxConnections}
 	}
 
 	cl.connections[token] += amount
 	cl.totalConnections += amount
+	verifEmit("cl.acquire", cl, token, amount, cl.connections[token])
 	return nil
 }
 
@@ -100,6 +102,7 @@ func (cl *ConnLimiter) release(token string, amount int64) {
 
 	cl.connections[token] -= amount
 	cl.totalConnections -= amount
+	verifEmit("cl.release", cl, token, amount, cl.connections[token])
 
 	// Otherwise it would grow forever
 	if cl.connections[token] == 0 {
